@@ -305,6 +305,7 @@ def run_case(case: dict, seed: int) -> dict:
                        entry_key="md5" if alg.startswith("md5") else alg)
         w = World(root, uni, STORES, idx_store="remote")
         w.alg = alg
+        w.store_spelling = case.get("ssp", "plain")
         init = {s: {x: st for x, st in objs.items() if st != "none"} for s, objs in case["init"].items()}
         w.setup(init)
         w.fault_kind = case.get("fk", 0)
@@ -834,7 +835,7 @@ def check_C06(run: core.Run, replay=None):
         for c in _sample(gen["gc"], 2500 if quick else 10**9, rng) + gen["gcvia"]:
             op = {"op": "Gc", "s": c["s"], "used": c["used"], "foreign": c["foreign"], "ord": c["ord"], "shallow": c["shallow"],
                   "dry": c["dry"], "ro": c["ro"], "cs": c["cs"], "cro": c["cro"]}
-            cases.append({"init": c["init"], "ops": [op], "kind": "gc"})
+            cases.append({"init": c["init"], "ops": [op], "kind": "gc", "ssp": ("plain", "slash")[len(cases) % 3 == 1]})
             if c["s"] == "remote" and len(cases) % 4 == 0 and not c["foreign"]:
                 # a store keyed by what a cloud reports about the file (hash_name "etag" / "checksum": the default of stores on
                 # s3, gs, http): gc never hashes, the names are just names
